@@ -594,6 +594,11 @@ func genOptions(rt *rapid.T, c *Case, ids []string, sp OptSpec) {
 	if !(sp.DefaultsOK && chance(rt, "ls_default", 1, 6)) {
 		c.LS = ptr(dim("ls", sp.LSZero))
 	}
+	// how the configuration is spelled as an option list (Case.Options): 1 case in 5 is not canonical - defaults spelled
+	// out, reverse order, or every explicit setting preceded by a decoy value that the later option overrides
+	if chance(rt, "optstyle?", 1, 5) {
+		c.OptStyle = 1 + pick(rt, "optstyle", 3)
+	}
 }
 
 // addHelperNamedKeys: a size map may list keys that name no node of the graph - they must be ignored. Keys that look like
